@@ -280,9 +280,12 @@ def check(prog, rep, tier):
                         want = norm(("bin", "*", ("lst", (C(0),)), ("bin", "-", ("f", SELF, "_bucket_size", 0), ("call", ("g", "len"), (e.recv,), ()))))
                         ok2 = canon(a) == canon(want)
             okb = ok2
-    if not okb and len([x for x in cells if x[2]]) == 2:
+    parts = [strip_epochs(x[1]) for x in cells if x[2]]
+    if not okb and len(parts) == 1 and parts[0][0] == "bin" and parts[0][1] == "+":
+        parts = [parts[0][2], parts[0][3]]  # one write of <words> + <zero tail>
+    if not okb and len(parts) == 2:
         # the other spelling: the bucket's own words, then the tail of a zero block of bucket_size words starting at len(bucket)
-        a_, b_ = [strip_epochs(x[1]) for x in cells if x[2]]
+        a_, b_ = parts
         bsz = ("f", SELF, "_bucket_size", 0)
 
         def words_of_bucket(v):
@@ -324,24 +327,26 @@ def check(prog, rep, tier):
         rep.bad("C06.cuckoo-buckets", "CountingCuckooFilter.__bucket_decomposition", "bucket emission", "bins are not written as uint32 pairs padded with zeros to bucket_size", bd.where())
     # ---------------------------------------------------------------- hashing
     kernel_rules(prog, rep, "C06")
-    defaults = {"BloomFilter": ("_set_values", "_hash_func", "default_fnv_1a"), "CountMinSketch": ("__init__", "_hash_function", "default_fnv_1a"),
-                "ExpandingBloomFilter": ("__init__", "_ExpandingBloomFilter__hash_func", "default_fnv_1a"),
-                "CuckooFilter": ("__init__", "_CuckooFilter__hash_func", "fnv_1a"), "QuotientFilter": ("__set_params", "_hash_func", "fnv_1a_32")}
-    for ctx, (fn, fld, want) in defaults.items():
-        f = prog.method(ctx, fn)
+    # decided on the constructor with its helpers looked through (whatever they are called): the functions that can end up in the
+    # strategy field when the caller passes none
+    defaults = {"BloomFilter": ("_hash_func", "default_fnv_1a"), "CountMinSketch": ("_hash_function", "default_fnv_1a"),
+                "ExpandingBloomFilter": ("_ExpandingBloomFilter__hash_func", "default_fnv_1a"),
+                "CuckooFilter": ("_CuckooFilter__hash_func", "fnv_1a"), "QuotientFilter": ("_hash_func", "fnv_1a_32")}
+    for ctx, (fld, want) in defaults.items():
+        f = prog.method(ctx, "__init__")
         vals = set()
-        for p in paths(prog, ctx, f):
+        for p in paths(prog, ctx, f, inline="deep"):
             if p.exit[0] != "return":
                 continue
-            v = p.fields.get((SELF, fld))
-            if v is not None:
-                for n in walk(v):
-                    if n[0] == "func":
-                        vals.add(n[1].split(".")[-1])
+            for e in p.events:
+                if e.kind == "setfield" and e.base == SELF and e.name == fld:
+                    for n in walk(e.value):
+                        if n[0] == "func":
+                            vals.add(n[1].split(".")[-1])
         if vals == {want}:
             rep.ok("C06.default-hash", f"{ctx}: default {want}")
         else:
-            rep.bad("C06.default-hash", f"{ctx}.{fn}", f"default {sorted(vals)}", f"the default hash strategy is {sorted(vals)}, documented {want}", f.where())
+            rep.bad("C06.default-hash", f"{ctx}.__init__", f"default {sorted(vals)}", f"the default hash strategy is {sorted(vals)}, documented {want}", f.where())
 
 
 from ..selftest import Mutant, del_stmt, insert_stmt, replace_class_const, replace_expr, replace_stmt, seq
